@@ -20,7 +20,9 @@ MANIFEST = dict(
          "(numpy.random, torch, scipy rvs, .sample of flows, generator constructions, stdlib random, OS entropy) draws from a "
          "generator that configure_random_seed seeds (rng_sites_seeded), and the decision logic of configure_random_seed itself is "
          "translated: the seed is replaced by a random one exactly when it is None (seed_replaced_iff_none — seed 0 is kept) and "
-         "both generators are seeded unconditionally with the stored value (seeding_unconditional_with_stored_seed); (3) the only draw whose execution depends on a "
+         "both generators are seeded unconditionally with the stored value (seeding_unconditional_with_stored_seed), and in the "
+         "constructor chain FlowSampler -> sampler -> BaseNestedSampler (calls extracted in execution order) seeding happens once "
+         "and before every drawing call except model.verify_model(), whose draws are discarded (seeded_before_first_draw_partial); (3) the only draw whose execution depends on a "
          "parallelisation setting is the vectorisation probe, and a model of configure_pool + probe proves that it consumes the "
          "same random numbers for every pool setting with a known pool size and shows the two ways it does not (an unknown-size "
          "user pool: the known finding; a cached probe on a re-used Model instance: outside the property's domain, noted only). "
@@ -32,7 +34,11 @@ MANIFEST = dict(
          "in one process, and fresh interpreters with different hash seeds) "
          "compared by sha256 of nested samples, evidence, posterior weights and evaluation counts across pool sizes, user pools, "
          "chunk sizes and parallel prior evaluation.",
-    note="Not shown: bit-determinism of NumPy/PyTorch kernels and of process scheduling (observed by the digest runs only); that "
+    note="No Lean object represents a whole run: the composition 'settings confined to the batch layer' + 'batch layer values "
+         "independent of the settings' + 'all randomness seeded' => 'same run' is informal and only observed by the digest runs. "
+         "Call order is shown for the constructor chain only (by callee name; resume branch and the order inside run() not shown); "
+         "that verify_model leaves nothing behind from its pre-seed draws is observed (scrambled ambient state per run), not proved. "
+         "Not shown: bit-determinism of NumPy/PyTorch kernels and of process scheduling (observed by the digest runs only); that "
          "third-party .sample methods use the default torch generator; Pool.map order (multiprocessing contract). The draw-guard "
          "table uses a name-based call graph. Likelihoods of the runs use exactly rounded operations only.",
     technique="Lean 4 table theorems (decide over translator output) + corollary of C10 + digest comparison of real runs",
@@ -57,6 +63,10 @@ def gen(ctx):
     rewritten = tables.write_if_changed(core.LEAN / "NessaiVerif" / "Gen" / "Tables.lean", text)
     ctx.extra["generated"] = dict(files=t["n_files"], sha256=t["sha256"], pool_reads=len(t["reads"]), pool_calls=len(t["calls"]),
                                   rng_sites=len(t["sites"]), guarded_draws=len(t["guarded"]), seeded=t["seeded"],
+                                  chain_steps={k: len(v) for k, v in t["chains"].items()},
+                                  pre_seed_draws={k: [c["call"] for c in v[:next(i for i, c in enumerate(v) if c["seeds"])]
+                                                      if c["draws"]] if any(c["seeds"] for c in v) else None
+                                                  for k, v in t["chains"].items()},
                                   seed_guard=t["seedfn"]["guard_src"], seed_guard_lean=t["seedfn"]["guard_lean"],
                                   rewritten=rewritten)
 
@@ -430,6 +440,24 @@ def digest_matrix(ctx, level, t):
                         if (file, func, line, name) not in static_reads:
                             ctx.disagree("translator: read of a parallelisation setting observed at run time is not a row of the "
                                          "generated table", dict(file=file, func=func, line=line, setting=name, run=cfg))
+                    # call order: whatever draws before the sampler seeds must be an admitted pre-seed step of the chain table
+                    chain = t["chains"]["standard" if base["sampler"] == "ns" else "importance"]
+                    pre = []
+                    for st in chain:
+                        if st["seeds"]:
+                            break
+                        if st["draws"]:
+                            pre.append(st["call"].split(".")[-1])
+                    seen_seed = False
+                    for file, func, name in d.get("rng_order", []):
+                        if name in ("numpy.random.seed", "torch.manual_seed") and func.endswith("configure_random_seed"):
+                            seen_seed = True
+                            break
+                        if func.split(".")[-1] not in pre:
+                            ctx.disagree("translator: a random draw observed BEFORE configure_random_seed is not a pre-seed drawing "
+                                         "step of the constructor-chain table", dict(file=file, func=func, call=name, table=pre, run=cfg))
+                    if not seen_seed:
+                        ctx.disagree("tracer never saw configure_random_seed seed the generators", dict(run=cfg))
                     ctx.extra.setdefault("dynamic_sites", {})[tag] = dict(rng=len(d["rng_calls"]), reads=len(d["setting_reads"]))
             else:
                 df = differs(b, d)
